@@ -1368,8 +1368,13 @@ class MultiheadAttentionPlugin(PrimitiveLeafPlugin):
             _stamp_type_and_shape(scores, scores_meta)
             _ensure_value_metadata(ctx, scores)
 
+            # keep the scale at the precision of the scores it multiplies
+            scale_np_dtype = (
+                np.float64 if scores_dtype == ir.DataType.DOUBLE else np.float32
+            )
             scale_value = ctx.bind_const_for_var(
-                object(), np.asarray(1.0 / math.sqrt(float(qk_size)), dtype=np.float32)
+                object(),
+                np.asarray(1.0 / math.sqrt(float(qk_size)), dtype=scale_np_dtype),
             )
             scale_cast = cast_param_like(
                 ctx, scale_value, scores, name_hint="mha_scale_cast"
